@@ -224,8 +224,16 @@ def scen_last_bytes(ctx, M):
             return self.pos
 
         def read(self, n=-1):
-            r = S.slice(self.pos, N)
-            self.pos = N
+            # contract: read(n) allocates a buffer of n bytes first
+            if n is not None and not isinstance(n, int) or \
+                    isinstance(n, int) and n >= 0:
+                if ctx.truth(n > (1 << 34)):
+                    raise MemoryError('read(%s)' % ('n',))
+                end = h.vmin(self.pos + n, N)
+            else:
+                end = N
+            r = S.slice(self.pos, end)
+            self.pos = end
             return r
 
         def __enter__(self):
